@@ -74,7 +74,11 @@ func sameOutput(b, ref []byte) bool {
 	return err1 == nil && err2 == nil && nb == nr
 }
 
-var entID = map[string]int{"in.pdf": 2, "out.pdf": 3, "link.pdf": 4, "hl.pdf": 5, "other.dat": 6, "in2.pdf": 7, "dangling.pdf": 8, "olink.pdf": 9, "missing.pdf": 10}
+var entID = map[string]int{"in.pdf": 2, "out.pdf": 3, "link.pdf": 4, "hl.pdf": 5, "other.dat": 6, "in2.pdf": 7, "dangling.pdf": 8, "olink.pdf": 9, "missing.pdf": 10,
+	// the multi-input matrix (multi.go)
+	"a.png": 32, "b.png": 33, "c.png": 34, "d.png": 35, "x.pdf": 36, "y.pdf": 37, "z.pdf": 38, "mlink.pdf": 39, "mhl.pdf": 40, "mout.pdf": 41}
+
+var nextID = 11
 
 type opDef struct {
 	name   string
@@ -91,7 +95,8 @@ func idFor(name string) int {
 	if id, ok := entID[name]; ok {
 		return id
 	}
-	id := 11 + len(entID) - 9
+	id := nextID
+	nextID++
 	entID[name] = id
 	return id
 }
@@ -198,6 +203,9 @@ func snapshot(dir string) map[string]snapEntry {
 		if err != nil {
 			continue
 		}
+		if fi.IsDir() {
+			continue
+		}
 		e := snapEntry{name: de.Name(), exists: true}
 		if fi.Mode()&os.ModeSymlink != 0 {
 			t, _ := os.Readlink(p)
@@ -301,14 +309,15 @@ func render(before, after map[string]snapEntry, ref []byte) string {
 }
 
 type harness struct {
-	r     *vh.Run
-	base  string
-	small []byte
-	multi []byte
-	two   []byte // a 2-page PDF: the content of a pre-existing PDF destination
-	n     int
-	refs  map[string][]byte
-	dests map[string]string
+	r       *vh.Run
+	base    string
+	small   []byte
+	multi   []byte
+	two     []byte // a 2-page PDF: the content of a pre-existing PDF destination
+	n       int
+	refs    map[string][]byte
+	dests   map[string]string
+	samples map[string][]byte
 }
 
 func (h *harness) mkdir(rel relation, o opDef, existing string) string {
@@ -353,6 +362,8 @@ func spell(dir, name string, sp int) string {
 		return "./" + name
 	case 2:
 		return name
+	case 3:
+		return "sub/../" + name
 	}
 	return filepath.Join(dir, name)
 }
@@ -718,4 +729,5 @@ func main() {
 		}
 	}
 	h.aliasCases()
+	h.multiCases()
 }
